@@ -44,7 +44,7 @@ META = dict(
             "float round-off/cancellation in 2 - c1*D for omega_0*dt << 1; models with more than two poles per material; DispersionModel.rotated",
     bounds=dict(quick=dict(poles_per_model="1 (2 in the padding case)", pole_kinds=["lorentz", "drude", "ccpr", "lorentz per-axis", "lorentz oriented"]),
                 thorough=dict(poles_per_model="1-2", pole_kinds=["lorentz", "drude", "ccpr", "critical-point", "per-axis lorentz/drude/ccpr", "oriented lorentz/drude"])),
-    timeout_ms=dict(quick=90000, thorough=300000),
+    timeout_ms=dict(quick=20000, thorough=60000),
 )
 
 
@@ -219,7 +219,20 @@ def _family(kind):
             return sc.mul(A * Om, num), sc.mul(d1, d2)
     else:
         raise ValueError(kind)
-    return P, dom, build, declared, box, orient, (base if not axes3 else base + "3")
+    # seeded exact-rational parameter points (dt = 1/2): lightly damped (gamma*dt = 1/2) and heavily damped (gamma*dt = 3, i.e. c2 > 0)
+    # oscillators, mixed over the axes for per-axis poles; all legal (omega_0*dt < 2, damping >= 0)
+    F = Fraction
+    light = dict(w0=F(1), g=F(1), de=F(3, 2), wp=F(2), qr=F(-1, 2), qi=F(6, 5), rr=F(7, 10), ri=F(11, 10), A=F(4, 5), Om=F(6, 5), Ga=F(1, 2), cphi=F(3, 5), sphi=F(4, 5))
+    heavy = dict(light, g=F(6), qr=F(-3), qi=F(5, 4), Ga=F(3), Om=F(5, 4), w0=F(3, 2), de=F(2), wp=F(3))
+    seeds = []
+    for pattern in ((light, heavy, light), (heavy, light, heavy)):
+        sd = {}
+        for name in P:
+            stem, _, suf = name.partition("_")
+            src = pattern[["x", "y", "z"].index(suf)] if suf in ("x", "y", "z") else pattern[0]
+            sd[name] = src[stem]
+        seeds.append(sd)
+    return P, dom, build, declared, box, orient, (base if not axes3 else base + "3"), seeds
 
 
 def _cp_build(dp, A, phase, Om, Ga):
@@ -448,7 +461,13 @@ def _pole_case(c, case):
 
     import fdtdx.dispersion as dp
 
-    P, dom, build, declared, box, orient, fam = _family(case["pole"])
+    P, dom, build, declared, box, orient, fam, seeds = _family(case["pole"])
+    t_case0 = time.time()
+    budget_s = 120 if c.tier == "quick" else 400
+
+    def over_budget():
+        return time.time() - t_case0 > budget_s
+
     dt, cdt = fresh_real("dt", 0, None, lo_strict=True)
     W = z3.Real("omega")
     DT = dt.t
@@ -489,6 +508,9 @@ def _pole_case(c, case):
         ncomp = chi.size
         if nval == 1:
             _validate(c, P, build, real_fn, tr, fname)
+        seeded_bad = _seeded_checks(c, pi, pc, coeffs, P, dt, W, seeds, build, declared, real_fn, fname, ncomp, key)
+        if seeded_bad:
+            c.notes.append(f"{key}: a seeded-point violation was confirmed; the fully symbolic susceptibility obligations of that path are skipped")
         done = []
         nz_all = []
         for ax in range(3):
@@ -499,6 +521,10 @@ def _pole_case(c, case):
             if isz(cond) and any(cond.eq(q) for q in seen_side):
                 continue
             seen_side.append(cond)
+            if seeded_bad:
+                break
+            if over_budget():
+                raise Inconclusive(f"case time budget of {budget_s} s exhausted")
             cond_, assume_ = _de_uf(_clear_cond(c, cond, pc + nz_all), pc + nz_all)
             c.prove(f"path{pi}: definedness {kind_} (where the declared denominators are non-zero)", cond_, assume_, None, key=key + ":definedness")
         for j in range(ncomp):
@@ -508,6 +534,10 @@ def _pole_case(c, case):
                 u = build({k: 1.0 for k in P})[0].orientation
                 wgt = Fraction(float(u[j // 3]) * float(u[j % 3])) if u is not None else (1 if j % 4 == 0 else 0)  # the float64 product, as np.outer forms it
                 N = sc.mul(sc.cx(N), wgt)
+            if seeded_bad:
+                break
+            if over_budget():
+                raise Inconclusive(f"case time budget of {budget_s} s exhausted")
             X = sc.cx(chi[j])
             lhs = sc.mul(X, sc.cx(D))
             sig = (str(z3.simplify(sc.toz(lhs.re)).hash()), str(z3.simplify(sc.toz(lhs.im)).hash()), str(sc.cx(N).re), str(sc.cx(N).im))
@@ -534,13 +564,15 @@ def _pole_case(c, case):
             if any(a1.eq(p) and a2.eq(q) for p, q in seen):
                 continue
             seen.append((a1, a2))
+            if over_budget():
+                raise Inconclusive(f"case time budget of {budget_s} s exhausted")
             root = z3.And(x * x - y * y - a1 * x - a2 == 0, 2 * x * y - a1 * y == 0, x * x + y * y > 1)
 
             def rroot(m, j=j):
                 return _replay_root(m, P, dt, build, real_fn, j)
 
             _prove_boxed(c, f"path{pi}: no root of z^2-c1[{j}]z-c2[{j}] outside the unit circle", z3.Not(root), pc + legal, box, rroot, key + ":root-outside-unit-circle")
-        if nval == 1:
+        if nval == 1 and not seeded_bad:
             X = sc.cx(chi[0])
             # at a concrete point of the well-conditioned box (z3 only has to evaluate)
             mid = [s.t == z3.RealVal({"cphi": Fraction(3, 5), "sphi": Fraction(4, 5)}.get(k, Fraction(b0.arg(1).as_fraction() + b1.arg(1).as_fraction()) / 2))
@@ -572,13 +604,113 @@ def _num_declared(declared, v, w, ax):
     return complex(float(N.re), float(N.im)), complex(float(D.re), float(D.im))
 
 
+def _exact_sqrt(q):
+    import math
+
+    if q < 0:
+        return None
+    a, b = math.isqrt(q.numerator), math.isqrt(q.denominator)
+    return Fraction(a, b) if a * a == q.numerator and b * b == q.denominator else None
+
+
+def _at_point(t, subs):
+    """value of a z3 term at a rational point (pysym sqrt applications with a perfect-square argument are evaluated exactly)"""
+    if not isz(t):
+        return t
+    u = z3.simplify(z3.substitute(t, *subs))
+    for _ in range(3):
+        apps, seen, stack = [], set(), [u]
+        while stack:
+            k = stack.pop()
+            if k.get_id() in seen:
+                continue
+            seen.add(k.get_id())
+            if z3.is_app(k) and k.decl().eq(pysym._SQRT) and z3.is_rational_value(k.arg(0)) and not any(k.eq(a) for a in apps):
+                apps.append(k)
+            stack.extend(k.children())
+        if not apps:
+            break
+        reps = []
+        for a in apps:
+            r = _exact_sqrt(a.arg(0).as_fraction())
+            if r is not None:
+                reps.append((a, z3.RealVal(r)))
+        if not reps:
+            break
+        u = z3.simplify(z3.substitute(u, *reps))
+    return u
+
+
+def _seeded_checks(c, pi, pc, coeffs, P, dt, W, seeds, build, declared, real_fn, fname, ncomp, key):
+    """cheap sub-obligations (implied by the symbolic ones): pole parameters and dt fixed to seeded exact rationals, omega symbolic in a
+    well-conditioned range.  The coefficient terms of this path are evaluated exactly at the point, the real susceptibility_from_coefficients
+    is interpreted on those rationals (all its guards / clips become concrete), and chi_rec*D == N is a univariate polynomial identity in omega.
+    Returns True if a violation was confirmed."""
+    nv0 = len(c.violations)
+    dtq = Fraction(1, 2)
+    for si, sd in enumerate(seeds):
+        subs = [(P[k].t, z3.RealVal(v)) for k, v in sd.items()] + [(dt.t, z3.RealVal(dtq))]
+        if not all(z3.is_true(_at_point(p, subs)) for p in pc if isz(p)):
+            continue  # the seeded point lies on another path
+        cf = []
+        for a in coeffs:
+            b = np.empty(a.shape, dtype=object)
+            for i in np.ndindex(*a.shape):
+                v = _at_point(a[i], subs)
+                if isz(v):
+                    if not z3.is_rational_value(v):
+                        raise Inconclusive(f"seeded point: coefficient does not evaluate to a rational ({v})")
+                    v = v.as_fraction()
+                b[i] = Fraction(v)
+            cf.append(b)
+        chi, _, _ = _chi(c, cf, W, z3.RealVal(dtq))
+        chi = chi.reshape(-1)
+        zv = {k: z3.RealVal(v) for k, v in sd.items()}
+        rng = [W >= Fraction(3, 10), W <= 3]
+        fv = {k: float(v) for k, v in sd.items()}
+        for j in range(ncomp):
+            ax = j // 3 if ncomp == 9 else (j if ncomp == 3 else 0)
+            N, D = declared(zv, W, ax)
+            if ncomp == 9:
+                u = build({k: 1.0 for k in P})[0].orientation
+                N = sc.mul(sc.cx(N), Fraction(float(u[j // 3]) * float(u[j % 3])) if u is not None else (1 if j % 4 == 0 else 0))
+            N, Dz = sc.cx(N), sc.cx(D)
+            lhs = sc.mul(sc.cx(chi[j]), Dz)
+            nz = z3.Or(sc.toz(Dz.re) != 0, sc.toz(Dz.im) != 0)
+
+            def replay(m, j=j, ax=ax, fv=fv):
+                return _real_vs_declared(fv, float(dtq), model_value(m, W), build, declared, real_fn, fname, j, ax, ncomp)
+
+            for part, l, r in (("re", lhs.re, N.re), ("im", lhs.im, N.im)):
+                l, r = sc.toz(l), sc.toz(r)
+                claim = z3.simplify(l == r) if not (isz(l) and _has_div(l)) else _rational_identity(c, l, r, rng + [nz])
+                c.prove(f"path{pi} seed{si}: chi_rec[{j}]*D == N ({part}) at a rational pole, omega in [0.3, 3]", claim, rng + [nz], replay, key=key + ":susceptibility-seeded")
+    return len(c.violations) > nv0
+
+
+def _has_div(t):
+    seen, stack = set(), [t]
+    while stack:
+        u = stack.pop()
+        if u.get_id() in seen:
+            continue
+        seen.add(u.get_id())
+        if z3.is_app_of(u, z3.Z3_OP_DIV):
+            return True
+        stack.extend(u.children())
+    return False
+
+
 def _replay_identity(m, P, dt, W, build, declared, real_fn, fname, j, ax, ncomp):
+    v, dtv = _conc(m, P, dt)
+    return _real_vs_declared(v, dtv, model_value(m, W), build, declared, real_fn, fname, j, ax, ncomp)
+
+
+def _real_vs_declared(v, dtv, w, build, declared, real_fn, fname, j, ax, ncomp):
     import jax.numpy as jnp
 
     import fdtdx.dispersion as dp
 
-    v, dtv = _conc(m, P, dt)
-    w = model_value(m, W)
     poles = build(v)
     cs = [np.asarray(a, dtype=np.float64) for a in real_fn(poles, dtv)]
     if fname == "scalar":
